@@ -529,6 +529,38 @@ func runC06Hit(c *Ctx, a *attackAnchors) {
 	}
 	c.Check(okCh, "chunked-option:(*lib.Attacker).hit", rChunk, "append under a.chunked", "the chunked option is not applied as documented", c.fnAt(hit))
 
+	// ---- the request handed to the transport is the target's request: hit adjusts only its header
+	// and transfer encoding. In particular ContentLength is what bytes-out is read from.
+	const rReqW = "hit writes no field of the *http.Request it got from Target.Request other than TransferEncoding (headers go through Header.Set): ContentLength, Body, Method, URL and Host reach the transport as the target defined them"
+	var reqWrites []ssa.Instruction
+	var badField string
+	builder := map[*ssa.Function]bool{} // Target.Request and what it calls build the request: not "hit touching it"
+	if rq := c.P.Func("lib", "Target.Request"); rq != nil {
+		for _, g := range region(rq) {
+			builder[g] = true
+		}
+	}
+	for _, cf := range chunkFns {
+		if builder[cf] {
+			continue
+		}
+		eachInstr(cf, func(i ssa.Instruction) {
+			st, ok := i.(*ssa.Store)
+			if !ok {
+				return
+			}
+			fa, ok := st.Addr.(*ssa.FieldAddr)
+			if !ok || !isNamedType(fa.X.Type(), "net/http", "Request") {
+				return
+			}
+			if f := fieldName(fa.X.Type(), fa.Field); f != "TransferEncoding" {
+				reqWrites = append(reqWrites, st)
+				badField = f
+			}
+		})
+	}
+	c.Check(len(reqWrites) == 0, "request-untouched:(*lib.Attacker).hit", rReqW, "only TransferEncoding is assigned", "hit overwrites Request."+badField+" (bytes-out is taken from ContentLength; method, URL and body are the target's)", c.atsOr(reqWrites, hit)...)
+
 	c06HeaderCase(c)
 	c06Request(c)
 	c06Redirects(c)
@@ -575,11 +607,16 @@ func c06HeaderCase(c *Ctx) {
 	const rule = "no canonicalising header API (Header.Set/Add/Del/Get/Values, MIMEHeader.*, CanonicalMIMEHeaderKey) is given a non-constant key in Target.Request, the target parsers, hit, or the -header flag: user header keys keep their letter case; keys are written by direct map update"
 	scopes := []struct{ short, name string }{
 		{"lib", "Target.Request"}, {"lib", "NewHTTPTargeter"}, {"lib", "NewJSONTargeter"}, {"lib", "Attacker.hit"}, {"", "headers.Set"},
+		// the JSON target codec handles the same user keys (written and read back verbatim)
+		{"lib", "jsonTarget.encode"}, {"lib", "jsonTarget.decode"}, {"lib", "Target.Equal"},
 	}
 	n := 0
 	for _, s := range scopes {
 		fn := c.P.Func(s.short, s.name)
 		if fn == nil {
+			if strings.HasPrefix(s.name, "jsonTarget.") || s.name == "Target.Equal" {
+				continue // optional scope
+			}
 			c.Undecided("header-case:"+s.name, rule, "function not found")
 			continue
 		}
